@@ -200,8 +200,8 @@ mut("c12-subtrie-delete-ignores-partial-kv-match", ["C12"], BIN,
 
 BR = "trie/branches.py"
 mut("c13-missing-node-proves-absence", ["C13"], BR,
-    "    assert BinaryTrie(db=db, root_hash=root_hash).get(key) == value\n",
-    "    try:\n        got = BinaryTrie(db=db, root_hash=root_hash).get(key)\n    except KeyError:\n        got = None\n    assert got == value\n",
+    "    if BinaryTrie(db=db, root_hash=root_hash).get(key) != value:\n",
+    "    try:\n        got = BinaryTrie(db=db, root_hash=root_hash).get(key)\n    except KeyError:\n        got = None\n    if got != value:\n",
     suite=True, note="if_branch_valid treats a withheld node as proof that the key is absent")
 mut("c13-prefix-exists-ignores-mismatch-inside-kv", ["C13"], BR,
     "            if key_prefix == left_child[: len(key_prefix)]:\n                return True\n            return False",
